@@ -1684,3 +1684,59 @@ def propagate_replay(cases):
             rec["error"] = "%s: %s" % (type(e).__name__, e)
         out.append(rec)
     return {"results": out}
+
+
+def ddnnf_eval_replay(cases):
+    """Spec -> code replay for DDNNFEval.tla: a literal d-DNNF node table, weights as exact fractions [num, den] pairs,
+    evidence literals and a query sequence are run through a real SimpleDDNNFEvaluator (propagate, evaluate*, evaluate_evidence)."""
+    from problog.ddnnf_formula import DDNNF
+    from problog.evaluator import SemiringProbability
+    from problog.errors import InconsistentEvidenceError
+    FK = 1000000
+
+    class PairSemiring(SemiringProbability):
+        """weights are given as (pos, neg) pairs (documented in LogicFormula.extract_weights)"""
+        def __init__(self, nsp):
+            SemiringProbability.__init__(self)
+            self._nsp = nsp
+
+        def is_nsp(self):
+            return self._nsp
+
+        def pos_value(self, a, key=None):
+            return float(a[0])
+
+        def neg_value(self, a, key=None):
+            return float(a[1])
+
+    out = []
+    for c in cases:
+        rec = {"id": c["id"]}
+        try:
+            f = DDNNF(auto_compact=False)
+            for i, n in enumerate(c["g"]):
+                if n["t"] == "atom":
+                    k = f.add_atom(i + 1, 0.5)
+                elif n["t"] == "conj":
+                    k = f.add_and(list(n["ch"]))
+                else:
+                    k = f.add_or(list(n["ch"]))
+                if k != i + 1:
+                    raise RuntimeError("node %d stored under key %r" % (i + 1, k))
+            weights = {i + 1: (w[0][0] / w[0][1], w[1][0] / w[1][1]) for i, w in enumerate(c["w0"])}
+            e = f._create_evaluator(PairSemiring(bool(c["nsp"])), weights)
+            for l in c["ev"]:
+                e.add_evidence(l)
+            try:
+                e.propagate()
+                rec["pc"] = "ready"
+                rec["results"] = [e.evaluate(None if q == FK else q) for q in c["qs"]]
+                rec["pev"] = e.evaluate_evidence()
+            except InconsistentEvidenceError:
+                rec["pc"] = "inconsistent"
+        except Exception as ex:       # noqa
+            import traceback
+            rec["error"] = "%s: %s" % (type(ex).__name__, ex)
+            rec["site"] = traceback.extract_tb(ex.__traceback__)[-1].name
+        out.append(rec)
+    return {"results": out}
